@@ -30,7 +30,7 @@ CHECKS = {
                      "The pre-repair mpc_hash is proved wrong on concrete witnesses. Correspondence: model vs code, the transcribed CPython spec vs CPython itself, and the law a == b => hash(a) == hash(b) on live objects.",
                 note=TB + "CPython's hash algorithm is taken from its documentation and validated against the running interpreter; Fraction/mpq operands are outside the property's type list and only reported."),
     "C10": dict(category="proof", technique="Lean 4 theorems (bit length <= prec as corollary of the rounding contract) + correspondence + bit-length monitor",
-                text="Theorems: results of add/sub/mul/div/pos/neg/abs at precision prec >= 1 have at most prec mantissa bits, for all operands (in particular operands longer than prec). "
+                text="Theorems: results of add/sub/mul/div/pos/neg/abs, sqrt, integer powers (every integer exponent), floor/ceil/nint/frac and % at precision prec >= 1 have at most prec mantissa bits, for all operands (in particular operands longer than prec). "
                      "Correspondence run plus a monitor of the bit length of every result of the rounded core operations.",
                 note=TB + "Proved for the modelled core; the wrapper layer (_wrap_specfun etc.) is sampled."),
 }
